@@ -3,8 +3,8 @@ PROPS["C14"] = dict(
     technique="generated request objects vs. an own byte encoder of the mirrored reply and of every single-field perturbation; exact-size heap buffers under ASan/UBSan for every class x length 0..128",
     level_text="x",
     level_note="x",
-    phases=[dict(name="pairs", harness="c14.cpp", flavor="asan", mode="pairs", cases=dict(quick=400000, thorough=6000000)),
-            dict(name="safety", harness="c14.cpp", flavor="asan", mode="safety", cases=dict(quick=40000, thorough=1200000))],
+    phases=[dict(name="pairs", harness="c14.cpp", flavor="asan", mode="pairs", cases=dict(quick=400000, thorough=5000000)),
+            dict(name="safety", harness="c14.cpp", flavor="asan", mode="safety", cases=dict(quick=40000, thorough=800000))],
     rule="x",
     floors=dict(any={}),
     assumptions=[],
